@@ -516,11 +516,44 @@ pub fn params_builder_roundtrip() -> Value {
 			}
 		}
 	}
+	// tuples of every implemented arity (macro-generated impls) and the rpc_params! macro: the i-th value stays the i-th
+	{
+		use jsonrpsee_core::traits::ToRpcParams;
+		fn txt<P: ToRpcParams>(p: P) -> String { match std::panic::catch_unwind(std::panic::AssertUnwindSafe(|| p.to_rpc_params())) { Ok(Ok(Some(r))) => r.get().to_string(), Ok(Ok(None)) => "<none>".into(), Ok(Err(e)) => format!("<error {e}>"), Err(_) => "<panic>".into() } }
+		let v: Vec<u64> = (100..116).collect();
+		let s: Vec<String> = (0..16).map(|i| format!("s\"{i}")).collect();
+		let got: Vec<String> = vec![
+			txt((v[0],)), txt((v[0], &s[1])), txt((v[0], &s[1], v[2])), txt((v[0], &s[1], v[2], &s[3])), txt((v[0], &s[1], v[2], &s[3], v[4])),
+			txt((v[0], &s[1], v[2], &s[3], v[4], &s[5])), txt((v[0], &s[1], v[2], &s[3], v[4], &s[5], v[6])), txt((v[0], &s[1], v[2], &s[3], v[4], &s[5], v[6], &s[7])),
+			txt((v[0], &s[1], v[2], &s[3], v[4], &s[5], v[6], &s[7], v[8])), txt((v[0], &s[1], v[2], &s[3], v[4], &s[5], v[6], &s[7], v[8], &s[9])),
+			txt((v[0], &s[1], v[2], &s[3], v[4], &s[5], v[6], &s[7], v[8], &s[9], v[10])), txt((v[0], &s[1], v[2], &s[3], v[4], &s[5], v[6], &s[7], v[8], &s[9], v[10], &s[11])),
+			txt((v[0], &s[1], v[2], &s[3], v[4], &s[5], v[6], &s[7], v[8], &s[9], v[10], &s[11], v[12])), txt((v[0], &s[1], v[2], &s[3], v[4], &s[5], v[6], &s[7], v[8], &s[9], v[10], &s[11], v[12], &s[13])),
+			txt((v[0], &s[1], v[2], &s[3], v[4], &s[5], v[6], &s[7], v[8], &s[9], v[10], &s[11], v[12], &s[13], v[14])),
+			txt((v[0], &s[1], v[2], &s[3], v[4], &s[5], v[6], &s[7], v[8], &s[9], v[10], &s[11], v[12], &s[13], v[14], &s[15])),
+		];
+		for (k, g) in got.iter().enumerate() {
+			tried += 1;
+			let want: Vec<Value> = (0..=k).map(|i| if i % 2 == 0 { json!(v[i]) } else { json!(s[i]) }).collect();
+			if serde_json::from_str::<Value>(g).ok() != Some(Value::Array(want.clone())) {
+				return json!({"probe":"params_builder_roundtrip","disagrees":true,"input":format!("tuple of {} values (u64 at even, text at odd positions) as params", k + 1),"observed":g,"expected":Value::Array(want).to_string()});
+			}
+		}
+		tried += 3;
+		let m = txt(rpc_params![v[0], &s[1], v[2]]);
+		if serde_json::from_str::<Value>(&m).ok() != Some(json!([v[0], s[1], v[2]])) {
+			return json!({"probe":"params_builder_roundtrip","disagrees":true,"input":"rpc_params![u64, text, u64]","observed":m,"expected":json!([v[0], s[1], v[2]]).to_string()});
+		}
+		let arr = txt([v[0], v[1], v[2]]);
+		let vecp = txt(vec![s[0].clone(), s[1].clone()]);
+		if serde_json::from_str::<Value>(&arr).ok() != Some(json!([v[0], v[1], v[2]])) || serde_json::from_str::<Value>(&vecp).ok() != Some(json!([s[0], s[1]])) {
+			return json!({"probe":"params_builder_roundtrip","disagrees":true,"input":"[u64; 3] and Vec<String> as params","observed":format!("{arr} / {vecp}"),"expected":"the same values in the same order"});
+		}
+	}
 	// empty builders mean "no params"
 	if ArrayParams::new().to_rpc_params().ok().flatten().is_some() || ObjectParams::new().to_rpc_params().ok().flatten().is_some() {
 		return json!({"probe":"params_builder_roundtrip","disagrees":true,"input":"empty builder","observed":"Some(..)","expected":"None"});
 	}
-	json!({"probe":"params_builder_roundtrip","disagrees":false,"inputs_tried":tried,"bound":"12 x 12 awkward texts as values and keys"})
+	json!({"probe":"params_builder_roundtrip","disagrees":false,"inputs_tried":tried,"bound":"12 x 12 awkward texts as values and keys; tuples of arity 1..16 with pairwise distinct values; rpc_params!, array and Vec params"})
 }
 
 // ------------------------------------------------------------------------------------------
@@ -1287,6 +1320,15 @@ pub fn host_filter_gate() -> Value {
 			(vec!["parity.io"], Some("parity.io"), "http://parity.io/", 200),
 			(vec!["parity.io"], Some("parity.io:99999"), "/", 400),
 			(vec![], Some("parity.io"), "/", 403),
+			(vec![], None, "http://parity.io/", 403),
+			// the authority comes from the request URI only (HTTP/2 :authority, absolute-form target)
+			(vec!["parity.io"], None, "http://parity.io/", 200),
+			(vec!["parity.io:443"], None, "http://parity.io:443/", 200),
+			(vec!["parity.io:443"], None, "http://parity.io:444/", 403),
+			(vec!["parity.io"], None, "http://parity.io:99999/", 400),
+			(vec!["parity.io:*"], None, "http://parity.io:99999/", 400),
+			(vec!["parity.io"], Some("parity.io:99999"), "http://parity.io:99999/", 400),
+			(vec!["parity.io"], Some("not a host"), "http://parity.io/", 200),
 		];
 		let mut tried = 0;
 		for (allow, host, uri, want) in cases {
@@ -1401,6 +1443,81 @@ pub fn subscription_bookkeeping() -> Value {
 				}
 			}
 		}
-		json!({"probe":"subscription_bookkeeping","disagrees":false,"histories_tried":2})
+		// history 3: the handler hands its sink to another task and returns; the subscription stays active while that sink
+		// is held: not closed, sends are delivered, unsubscribe(own id) answers true — and only then it is closed
+		{
+			let (tx3, mut rx3) = tokio::sync::mpsc::unbounded_channel::<String>();
+			let mut module3 = RpcModule::new(tx3);
+			module3
+				.register_subscription("sub3", "notif3", "unsub3", |_, pending, tx, _| async move {
+					let sink: SubscriptionSink = pending.accept().await.unwrap();
+					tokio::spawn(async move {
+						tokio::time::sleep(std::time::Duration::from_millis(80)).await;
+						let closed = sink.is_closed();
+						let sent = sink.send(raw("\"from-moved-sink\"")).await.is_ok();
+						let _ = tx.send(format!("closed={closed} sent={sent}"));
+						sink.closed().await;
+						let _ = tx.send(format!("finally closed={}", sink.is_closed()));
+					});
+				})
+				.unwrap();
+			let mut sub3 = module3.subscribe_unbounded("sub3", jsonrpsee_core::EmptyServerParams::new()).await.unwrap();
+			let sid3 = sub3.subscription_id().clone();
+			let rep = tokio::time::timeout(std::time::Duration::from_secs(2), rx3.recv()).await.ok().flatten().unwrap_or_default();
+			if rep != "closed=false sent=true" {
+				return fail("handler accepts, moves its sink into another task and returns; that task then uses the sink", rep, "the subscription is still active: is_closed() == false and the send succeeds");
+			}
+			let got = tokio::time::timeout(std::time::Duration::from_secs(2), sub3.next::<String>()).await;
+			if !matches!(&got, Ok(Some(Ok((v, _)))) if v == "from-moved-sink") {
+				return fail("notification sent through a sink that outlives the handler", format!("{:?}", got.map(|o| o.map(|r| r.map(|x| x.0).map_err(|e| e.to_string())))), "delivered");
+			}
+			let own: bool = module3.call("unsub3", [sid3.clone()]).await.unwrap();
+			if !own {
+				return fail("unsubscribe(own id) while a sink of the subscription is still held (handler already returned)", "false".into(), "true");
+			}
+			let rep2 = tokio::time::timeout(std::time::Duration::from_secs(2), rx3.recv()).await.ok().flatten().unwrap_or_default();
+			if rep2 != "finally closed=true" {
+				return fail("after that unsubscribe the held sink", rep2, "reports closed");
+			}
+		}
+		json!({"probe":"subscription_bookkeeping","disagrees":false,"histories_tried":3})
+	})
+}
+
+// ------------------------------------------------------------------------------------------
+/// C19: only POST reaches the RPC layer over HTTP — every other method token (incl. case variants of POST) is refused with
+/// 405 and no handler runs. Real server, raw HTTP/1.1 requests over TCP.
+pub fn http_method_gate() -> Value {
+	use std::sync::atomic::{AtomicUsize, Ordering};
+	use tokio::io::{AsyncReadExt, AsyncWriteExt};
+	rt().block_on(async {
+		let calls = std::sync::Arc::new(AtomicUsize::new(0));
+		let server = jsonrpsee_server::Server::builder().build("127.0.0.1:0").await.unwrap();
+		let addr = server.local_addr().unwrap();
+		let mut module = RpcModule::new(calls.clone());
+		module.register_method("hit", |_, ctx, _| { ctx.fetch_add(1, Ordering::SeqCst); 1u64 }).unwrap();
+		let _handle = server.start(module);
+		let body = r#"{"jsonrpc":"2.0","id":1,"method":"hit"}"#;
+		let methods = [("POST", true), ("GET", false), ("PUT", false), ("DELETE", false), ("PATCH", false), ("OPTIONS", false), ("HEAD", false),
+			("post", false), ("Post", false), ("pOST", false), ("POSTS", false), ("XPOST", false), ("POS", false)];
+		let mut tried = 0;
+		for (m, allowed) in methods {
+			tried += 1;
+			let before = calls.load(Ordering::SeqCst);
+			let mut sock = match tokio::net::TcpStream::connect(addr).await { Ok(s) => s, Err(e) => return json!({"probe":"http_method_gate","error":format!("connect: {e}")}) };
+			let req = format!("{m} / HTTP/1.1\r\nHost: {addr}\r\nContent-Type: application/json\r\nContent-Length: {}\r\nConnection: close\r\n\r\n{body}", body.len());
+			let _ = sock.write_all(req.as_bytes()).await;
+			let mut buf = Vec::new();
+			let _ = tokio::time::timeout(std::time::Duration::from_secs(3), sock.read_to_end(&mut buf)).await;
+			let txt = String::from_utf8_lossy(&buf).to_string();
+			let status: u16 = txt.split_whitespace().nth(1).and_then(|s| s.parse().ok()).unwrap_or(0);
+			let ran = calls.load(Ordering::SeqCst) - before;
+			let ok = if allowed { status == 200 && ran == 1 } else { status != 200 && ran == 0 && (status == 405 || status == 400 || status == 0) };
+			if !ok {
+				return json!({"probe":"http_method_gate","disagrees":true,"input":format!("HTTP method token {m:?} with a JSON content type and a valid call as body"),
+					"observed":format!("status {status}, handler ran {ran} time(s)"),"expected": if allowed {"200 and the handler runs once"} else {"refused (405), no handler runs"}});
+			}
+		}
+		json!({"probe":"http_method_gate","disagrees":false,"inputs_tried":tried,"bound":"13 method tokens x one valid JSON call"})
 	})
 }
